@@ -279,7 +279,7 @@ func (r *Run) runScript(pi int, sc *plan.Script) {
 		rec.Ret = r.K.Stamp()
 		rec.TRet = int64(r.K.Now())
 		r.record(rec)
-		if r.P.Params["probe_after_each"] != 0 && op.Key != "" && !strings.HasPrefix(op.K, "ctl.") && op.K != "get" {
+		if r.P.Params["probe_after_each"] != 0 && r.P.Phases[pi].Name == "chains" && op.Key != "" && !strings.HasPrefix(op.K, "ctl.") && op.K != "get" {
 			dmn := op.DM
 			if dmn == "" {
 				dmn = r.P.DMap
